@@ -1,2 +1,145 @@
--- driver stub for C02: replaced by the real line-protocol driver
-def main : IO Unit := pure ()
+import Bermuda.Model.Json
+import Bermuda.Model.Eq
+import Bermuda.Spec.C02
+open Lean Bermuda
+
+/-!
+Line-protocol driver of C02.  One request = one *family* of triangles over a pool of cells:
+
+  {"op":"family","pool":[cell..],"tris":[[poolIdx..]..],"pairs":[[i,j]..] | "all",
+   "impl":{"eq":[b|null..],"hashEq":[..],"le":[..],"disj":[..],"inter":[[poolIdx..]|null..],"diff":[..]},
+   "mems":[[poolIdx,triIdx]..],"implMem":[b|null..],
+   "cellPairs":[[poolIdx,poolIdx]..],"implCellEq":[..],"implCellHashEq":[..],
+   "metas":[meta..],"metaPairs":[[i,j]..],"implMetaEq":[..],"implMetaHashEq":[..]}
+
+Answer: {"wf":bool,"model":{..same shapes..},"spec":{clause:[b|null..]}}; a spec entry is null where
+the implementation gave no answer (it raised), true/false otherwise.
+-/
+
+def optBoolArr (j : Json) (k : String) : Except String (Array (Option Bool)) :=
+  match j.getObjVal? k with
+  | .ok v => do
+    (← v.getArr?).mapM fun e => if e.isNull then pure none else (e.getBool?).map some
+  | .error _ => .ok #[]
+
+def natPairs (j : Json) : Except String (Array (Nat × Nat)) := do
+  (← j.getArr?).mapM fun e => do
+    let a ← e.getArr?
+    if a.size != 2 then throw "pair: want [i,j]"
+    return (← a[0]!.getNat?, ← a[1]!.getNat?)
+
+def natList (j : Json) : Except String (List Nat) := do
+  (← j.getArr?).toList.mapM (·.getNat?)
+
+def optIdxLists (j : Json) (k : String) : Except String (Array (Option (List Nat))) :=
+  match j.getObjVal? k with
+  | .ok v => do
+    (← v.getArr?).mapM fun e => if e.isNull then pure none else (natList e).map some
+  | .error _ => .ok #[]
+
+def optB : Option Bool → Json
+  | none => Json.null
+  | some b => Json.bool b
+
+def bools (a : Array Bool) : Json := Json.arr (a.map Json.bool)
+def optBools (a : Array (Option Bool)) : Json := Json.arr (a.map optB)
+
+/-- spec verdict per entry: `none` where the implementation gave no answer -/
+def verdicts {α} (n : Nat) (impl : Array (Option α)) (f : Nat → α → Bool) : Json :=
+  Json.arr <| (Array.range n).map fun i =>
+    match impl[i]? with
+    | some (some x) => Json.bool (f i x)
+    | _ => Json.null
+
+def idxOf (pool : Array Cell) (c : Cell) : Json :=
+  match pool.findIdx? (· == c) with
+  | some i => (i : Nat)
+  | none => Json.null
+
+def cellsRes (pool : Array Cell) : Except Err (List Cell) → Json
+  | .ok t => Json.arr (t.map (idxOf pool)).toArray
+  | .error e => Json.str e.name
+
+def exceptEq {α} [BEq α] : Except Err α → Except Err α → Option Bool
+  | .ok a, .ok b => some (a == b)
+  | _, _ => none
+
+def handle (j : Json) : Except String Json := do
+  let op ← (← j.getObjVal? "op").getStr?
+  if op != "family" then throw s!"unknown op {op}"
+  let pool := (← cellsFromJson (← j.getObjVal? "pool")).toArray
+  let get (i : Nat) : Cell := pool[i]!
+  let tris : Array (List Cell) ← (← (← j.getObjVal? "tris").getArr?).mapM fun e => do
+    return (← natList e).map get
+  let tri (i : Nat) : List Cell := tris[i]!
+  let pairsJ ← j.getObjVal? "pairs"
+  let pairs : Array (Nat × Nat) ←
+    match pairsJ with
+    | .str "all" => pure <| (Array.range tris.size).flatMap fun i => (Array.range tris.size).map fun k => (i, k)
+    | v => natPairs v
+  let impl := (j.getObjVal? "impl").toOption.getD (Json.mkObj [])
+  let iEq ← optBoolArr impl "eq"
+  let iHash ← optBoolArr impl "hashEq"
+  let iLe ← optBoolArr impl "le"
+  let iDisj ← optBoolArr impl "disj"
+  let iInter ← optIdxLists impl "inter"
+  let iDiff ← optIdxLists impl "diff"
+  let n := pairs.size
+  let pa (i : Nat) : List Cell := tri pairs[i]!.1
+  let pb (i : Nat) : List Cell := tri pairs[i]!.2
+  -- hash keys once per triangle
+  let hkeys := tris.map triHashKey
+  let mEq := pairs.map fun (x, y) => triEq (tri x) (tri y)
+  let mKey := pairs.map fun (x, y) => exceptEq hkeys[x]! hkeys[y]!
+  let mLe := pairs.map fun (x, y) => Triangle.le (tri x) (tri y)
+  let mDisj := pairs.map fun (x, y) => Triangle.isdisjoint (tri x) (tri y)
+  let wantSets := iInter.size > 0 || iDiff.size > 0
+  let mInter := if wantSets then pairs.map fun (x, y) => cellsRes pool (Triangle.inter (tri x) (tri y)) else #[]
+  let mDiff := if wantSets then pairs.map fun (x, y) => cellsRes pool (Triangle.diff (tri x) (tri y)) else #[]
+  -- membership
+  let mems ← match j.getObjVal? "mems" with
+    | .ok v => natPairs v
+    | .error _ => pure #[]
+  let iMem ← optBoolArr j "implMem"
+  let mMem := mems.map fun (c, t) => Triangle.mem (get c) (tri t)
+  -- cells
+  let cps ← match j.getObjVal? "cellPairs" with
+    | .ok v => natPairs v
+    | .error _ => pure #[]
+  let iCEq ← optBoolArr j "implCellEq"
+  let iCHash ← optBoolArr j "implCellHashEq"
+  let mCEq := cps.map fun (x, y) => cellEq (get x) (get y)
+  let mCRaises := cps.map fun (x, y) => cellEqRaises (get x) (get y)
+  let mCKey := cps.map fun (x, y) => exceptEq (get x).hashKey (get y).hashKey
+  -- metadata
+  let metas : Array Metadata ← match j.getObjVal? "metas" with
+    | .ok v => do (← v.getArr?).mapM Metadata.fromJson
+    | .error _ => pure #[]
+  let mps ← match j.getObjVal? "metaPairs" with
+    | .ok v => natPairs v
+    | .error _ => pure #[]
+  let iMEq ← optBoolArr j "implMetaEq"
+  let iMHash ← optBoolArr j "implMetaHashEq"
+  let mMEq := mps.map fun (x, y) => metas[x]!.eqv metas[y]!
+  let mMKey := mps.map fun (x, y) => metas[x]!.hashKey == metas[y]!.hashKey
+  let wf := pool.all Spec.wfCell
+  let model := Json.mkObj [
+    ("eq", bools mEq), ("keyEq", optBools mKey), ("le", bools mLe), ("disj", bools mDisj),
+    ("inter", Json.arr mInter), ("diff", Json.arr mDiff), ("mem", bools mMem),
+    ("cellEq", bools mCEq), ("cellRaises", bools mCRaises), ("cellKeyEq", optBools mCKey),
+    ("metaEq", bools mMEq), ("metaKeyEq", bools mMKey)]
+  let spec := Json.mkObj [
+    ("eq", verdicts n iEq fun i b => Spec.eqClause (pa i) (pb i) b),
+    ("hash", verdicts n iHash fun i b => Spec.hashClause (pa i) (pb i) b),
+    ("le", verdicts n iLe fun i b => Spec.leClause (pa i) (pb i) b),
+    ("disj", verdicts n iDisj fun i b => Spec.disjClause (pa i) (pb i) b),
+    ("inter", verdicts n iInter fun i out => Spec.interClause (pa i) (pb i) (out.map get)),
+    ("diff", verdicts n iDiff fun i out => Spec.diffClause (pa i) (pb i) (out.map get)),
+    ("mem", verdicts mems.size iMem fun i b => Spec.memClause (get mems[i]!.1) (tri mems[i]!.2) b),
+    ("cellEq", verdicts cps.size iCEq fun i b => Spec.cellEqClause (get cps[i]!.1) (get cps[i]!.2) b),
+    ("cellHash", verdicts cps.size iCHash fun i b => Spec.cellHashClause (get cps[i]!.1) (get cps[i]!.2) b),
+    ("metaEq", verdicts mps.size iMEq fun i b => Spec.metaEqClause metas[mps[i]!.1]! metas[mps[i]!.2]! b),
+    ("metaHash", verdicts mps.size iMHash fun i b => Spec.metaHashClause metas[mps[i]!.1]! metas[mps[i]!.2]! b)]
+  return Json.mkObj [("wf", Json.bool wf), ("model", model), ("spec", spec)]
+
+def main : IO Unit := serve handle
